@@ -78,6 +78,15 @@ CLAIMED = {
                      "observed and must equal it. All dispatching algorithms (ChaCha wide+narrow, guts, BLAKE x4, JH x4, every vector op) run on identical inputs under 11 (quick) / 16 (thorough) configurations and every distinct "
                      "outcome is validated by TLC against specifications that have no configuration variable; panics and crashes are outcomes.",
                 note="Trusted: TLC, the function specifications (published vectors), dispatch override as stand-in for older CPUs, sampled inputs."),
+    "C16": dict(level="exploration", design="5/C16", technique="guard-page / canary harness in child processes; recorded call/return/crash traces validated by TLC against address-free specifications (thin TLA+ part)",
+                text="Every byte-slice API is called on slices ending at the last byte before, and starting at the first byte after, an unmapped page and at interior alignments between canaries, per backend; a child "
+                     "process per group makes SIGSEGV/SIGBUS an observed outcome. TraceAlign.tla accepts only episodes in which every call returned, results equal the heap-buffer reference and canaries are intact. "
+                     "The TLA+ part is deliberately thin: the deciding observation is the MMU's.",
+                note="Trusted: mmap/mprotect semantics (self-test: a deliberate 1-byte over-read must crash on every run), canaries, reference results validated by the other checks."),
+    "C18": dict(level="model_checking", design="5/C18", technique="TLC model checking of the once-initialisation protocol + TLC trace validation of interleaved multi-instance histories (product of ideal specs) and of cold multi-threaded first-use results",
+                text="Concurrency.tla (Once cells, racy feature cache) is explored exhaustively by TLC. On the code, one thread interleaves mixed cipher/hasher instances and TLC validates with the product monitor TraceSystem.tla; "
+                     "hundreds of cold processes release 2..64 threads making the first calls into every algorithm, and every distinct (input, output) is validated against the function specifications.",
+                note="Trusted: TLC; the OS scheduler picks real interleavings (a narrow race can be missed); lazy_static/Once/std_detect are modelled, not hooked."),
 }
 
 PENDING = {  # properties whose checks are not built yet in this tree (kept current as checks land)
